@@ -75,7 +75,7 @@ def lib(config):
             # keep the few most recently used trees of this config (parallel runs against scratch
             # copies via VERIF_REPO must not delete each other's builds); drop the rest
             olds = sorted(glob.glob(os.path.join(BUILD, config + "-*")), key=lambda x: os.path.getmtime(x), reverse=True)
-            for old in olds[5:]:
+            for old in olds[10:]:
                 shutil.rmtree(old, ignore_errors=True)
             tmp = d + ".tmp%d" % os.getpid()
             os.makedirs(tmp, exist_ok=True)
